@@ -30,10 +30,14 @@ EXPLANATION = (
     "value or the default, get_fit_params overrides exactly value/vary "
     "from the 'fit param <p> value/vary' entries; (R5) one statistics row "
     "per curve built from path, enumeration, fitted E and the rating "
-    "rounded to one decimal.")
+    "rounded to one decimal, computed with the profile's regressor and "
+    "training set; (R6) the legacy key=value loader is interpreted over "
+    "the cases (segment, approach), (segment, retract), (segment, any "
+    "other text), (other key, any text): exactly the two documented words "
+    "are mapped to '0'/'1' and every other entry is stored as written.")
 NOT_DECIDED = [
     "equivalence of legacy key=value profiles with their JSON form beyond "
-    "type-directed conversion",
+    "the word mapping of `segment` (R6) and type-directed conversion",
     "that lmfit keeps a stored value inside the parameter's bounds",
 ]
 
